@@ -19,6 +19,7 @@ type Prop struct {
 	QuickRuns, QuickChunk, QuickWallS          int
 	ThoroughRuns, ThoroughChunk, ThoroughWallS int
 	MaxSteps                                   int
+	RunWallS                                   int // real-time watchdog per run (0: 120 s)
 	Params                                     map[string]string
 	Rule                                       string
 	Real, Stub                                 []string
